@@ -69,6 +69,8 @@ def check(chk: Check) -> None:
     rule_fns = [(r.name, r.func) for r in lm.spec.rules if r.func is not None]
     if lm.spec.error_func is not None:
         rule_fns.append(('error', lm.spec.error_func))
+    if getattr(lm.spec, 'eof_func', None) is not None:
+        rule_fns.append(('eof', lm.spec.eof_func))
     for name, node in rule_fns:
         for a, kinds in lexer_attr_uses(node, 'param.lexer').items():
             inv.setdefault(a, {}).setdefault('rules', set()).update(kinds)
@@ -185,6 +187,15 @@ def check(chk: Check) -> None:
                     if isinstance(f, tuple) and f and f[0] == 'attr' and f[2] in MUTATORS and om.carries(f[1], selft) \
                             and f[1] != ('attr', selft, 'parse_cache'):
                         problems.append('`%s` mutates an object held by the parser' % e.text())
+                    # an object that lives on the parser handed to per-call machinery un-copied: whatever that machinery
+                    # writes (top-level assignments, ast_names) survives the call
+                    if e.depth() == 0 and not e.d.get('inlined') or e.d.get('ctor'):
+                        for a in tuple(freeze(e.args)) + tuple(v for _, v in freeze(e.kwargs)):
+                            if isinstance(a, tuple) and a[:2] == ('attr', selft) and a[2] not in ('lex', 'yacc', 'parse_cache'):
+                                pure = isinstance(f, tuple) and f[:2] == ('ref', 'builtin') and f[2] in ('dict', 'list', 'len', 'isinstance', 'sorted', 'tuple', 'str', 'repr')
+                                pure = pure or f in (('ref', 'ext', 'copy.copy'), ('ref', 'ext', 'copy.deepcopy'))
+                                if not pure and e.depth() == 0:
+                                    problems.append('`%s` hands self.%s, an object that outlives the call, to %s un-copied' % (e.text(), a[2], show(f)))
         chk.require(not problems, R3, q, fi.where, '; '.join(sorted(set(problems))) or 'stores constants only')
 
     # ---------------------------------------------------------------- R4
